@@ -401,6 +401,8 @@ func c04Recover(c *fw.Ctx) {
 
 func c04NameKind(n string) string {
 	switch {
+	case len(n) > 255:
+		return "long"
 	case n == "":
 		return "empty"
 	case n == "." || n == "..":
@@ -545,6 +547,30 @@ func c04Decode(c *fw.Ctx, format string) {
 			addCase(two[:cut], fmt.Sprintf("%s | 100644 \"zz\" cut at %d", descOf([]c04RawEnt{e}), cut), "cut2:"+kindOf([]c04RawEnt{e}))
 		}
 	}
+	// trees and names larger than the decoder's read buffer (bufio, 4 KiB; and
+	// 64 KiB): a long name as only / first entry; a first entry of every length
+	// 1..35 followed by 130 entries (the 4 KiB boundary falls on every offset
+	// inside an entry); 2 500 entries (crosses 64 KiB)
+	bigModes := []string{"100644", "100755", "120000", "160000", "40000"}
+	many := func(n int) []c04RawEnt {
+		out := make([]c04RawEnt, n)
+		for i := range out {
+			out[i] = c04RawEnt{bigModes[i%len(bigModes)], fmt.Sprintf("e%05d", i)}
+		}
+		return out
+	}
+	longNames := []int{4087, 4088, 4089, 4090, 4096, 4097, 8192, 70000}
+	for _, n := range longNames {
+		long := c04RawEnt{"100644", strings.Repeat("N", n)}
+		addCase(enc([]c04RawEnt{long}, false), fmt.Sprintf("100644 <name of %d bytes>", n), "big:longname")
+		addCase(enc([]c04RawEnt{long, {"40000", "zz"}}, true), fmt.Sprintf("100644 <name of %d bytes> | 40000 \"zz\"", n), "big:longname+1")
+	}
+	for pad := 0; pad < 35; pad++ {
+		seq := append([]c04RawEnt{{"100644", strings.Repeat("A", 1+pad)}}, many(130)...)
+		addCase(enc(seq, pad%2 == 1), fmt.Sprintf("100644 <%d x A> | 130 entries e00000.. with modes cycling %v", 1+pad, bigModes), "big:131-entries")
+	}
+	addCase(enc(many(2500), false), fmt.Sprintf("2500 entries e00000.. with modes cycling %v", bigModes), "big:2500-entries")
+	c.Bound("decode_big_trees_"+format, fmt.Sprintf("names of %v bytes (alone and followed by an entry); 35 trees of 131 entries (first name 1..35 bytes); one tree of 2500 entries", longNames))
 	c.States(len(cases))
 
 	// model verdicts; store everything; real listing of every well-formed tree.
@@ -764,6 +790,15 @@ func c04Encode(c *fw.Ctx, format string) {
 		}
 		sets = append(sets, []c04SetEnt{R[s[0]], R[s[1]], R[s[2]]})
 	}
+	// names at go-git's length limit (maxTreeEntryNameLen = 4096): git 2.39.5
+	// fsck --strict has no rule about the length of a name
+	if format == "sha1" {
+		for _, n := range []int{4095, 4096, 4097} {
+			long := c04SetEnt{strings.Repeat("N", n), 0o100644, h1}
+			sets = append(sets, []c04SetEnt{long}, []c04SetEnt{{"a", 0o100644, h1}, long}, []c04SetEnt{long, {"z", 0o040000, ht}})
+		}
+		c.Bound("encode_long_names", "names of 4095, 4096, 4097 bytes: alone, with {100644 a}, with {40000 z}")
+	}
 	c.States(len(sets))
 	descOf := func(set []c04SetEnt) string {
 		var s []string
@@ -772,7 +807,11 @@ func c04Encode(c *fw.Ctx, format string) {
 			if bytes.Equal(e.Hash, zero) {
 				z = " ->null"
 			}
-			s = append(s, fmt.Sprintf("%o %s%s", e.Mode, fw.Q(e.Name), z))
+			nm := fw.Q(e.Name)
+			if len(e.Name) > 255 {
+				nm = fmt.Sprintf("<name of %d bytes>", len(e.Name))
+			}
+			s = append(s, fmt.Sprintf("%o %s%s", e.Mode, nm, z))
 		}
 		return "{" + strings.Join(s, ", ") + "}"
 	}
@@ -951,6 +990,9 @@ func c04KeyOf(set []c04SetEnt) string {
 	var s []string
 	for _, e := range set {
 		n := fw.Q(e.Name)
+		if len(e.Name) > 255 {
+			n = fmt.Sprintf("<name of %d bytes>", len(e.Name))
+		}
 		for i := 0; i < len(e.Name); i++ {
 			if e.Name[i] < 0x20 || e.Name[i] == 0x7f {
 				n = "<name with a control character>"
